@@ -386,7 +386,11 @@ def get_attr(I, obj, name):
             I.raise_("AttributeError", name)
     h = I.registry.getattr_fallback
     if h is not None:
-        return h(I, obj, name)
+        try:
+            return h(I, obj, name)
+        except PyvcError:
+            if not (obj is None or isinstance(obj, (SV, int, float, bool, fractions.Fraction, Infinity))):
+                raise
     if obj is None or isinstance(obj, (SV, int, float, bool, fractions.Fraction, Infinity)):
         if not name.startswith("__") and name not in ("real", "imag", "numerator", "denominator", "is_integer", "conjugate"):
             I.raise_("AttributeError", name)
